@@ -323,6 +323,9 @@ def process_fn(src, unit, key, spec, s, hp, ob, cb, add_edit, canary, disabled_r
     ls = text.rfind('\n', 0, hp) + 1
     indent = text[ls:hp] if text[ls:hp].strip() == '' else ''
     attrs = spec.get('attrs', '')
+    # loops see the facts established before them (robust against harmless edits such as binding a loop bound to a local first)
+    if not info.trusted and 'loop_isolation' not in attrs and spec.get('loop_isolation', False) is False and find_loops(src, ob, cb):
+        attrs += '\n#[verifier::loop_isolation(false)]'
     if info.trusted:
         attrs += '#[verifier::external_body]\n'
     pre = '/*@fn:%s*/\n%s' % (key, indent)
